@@ -385,12 +385,12 @@ def hist(vals):
     return h
 
 
-def corpus_check(ctx, fam, build, K, extra_adv, level_extra, assumptions, floors, nlo=-1, nhi=3, stage1=False, second_pass=None, ref_tree="src", unbuildable_is_violation=False):
+def corpus_check(ctx, fam, build, K, extra_adv, level_extra, assumptions, floors, nlo=-1, nhi=3, stage1=False, second_pass=None, ref_tree="src", unbuildable_is_violation=False, batch=None):
     corp = corpus.Corpus(ctx, fam)
     corp.driver_bin = runner.build_driver(ctx)
     corp.stage1 = stage1
     counts = build(corp)
-    corp.write(K, extra_adv, nlo, nhi)
+    corp.write(K, extra_adv, nlo, nhi, batch=batch)
     corp.compile()
     front_end = []
     if stage1:
@@ -466,6 +466,7 @@ def corpus_check(ctx, fam, build, K, extra_adv, level_extra, assumptions, floors
         "programs": len(corp.programs),
         "programs_compiled": len(corp.where),
         "programs_rejected_by_compiler": len(corp.rejected),
+        "programs_examined": len(corp.programs),
         "programs_output_unbuildable": len(corp.unbuildable),
         "rejected_samples": dict(list(corp.rejected.items())[:5]),
         "rejected_by_message": hist(corp.rejected.values()),
@@ -815,3 +816,40 @@ def plan_C13(ctx):
 
 
 CLAIMED["C13"] = plan_C13
+
+
+def plan_C12(ctx):
+    K = ctx.q(8, 12)
+    import copy
+
+    def build(corp):
+        rng = random.Random(ctx.seed * 733 + 12)
+        hosts = [[("yield", "a + 1")], [("yield", "a + 1"), ("eff", 1), ("yield", "b + 2")]]
+        exh = gen.exhaustive(3)
+        rng.shuffle(exh)
+        for lst in exh[:ctx.q(4, 40)]:
+            hosts.append(gen.concretize(lst, gen.Ctr(), []))
+        hosts += gen.sampled(rng, ctx.q(3, 60), 8)
+        n = 0
+        for name, inj in gen.c12_injections():
+            for hi, host in enumerate(hosts if not name.startswith("ctl_") else hosts[:4]):
+                body = gen.inject_at(copy.deepcopy(host), copy.deepcopy(inj), rng)
+                # labels must be unique per function: one injection per program guarantees it
+                p = gen.Program("u%04d" % n, body, named_result=True, family="uns", tags={"unsupported:" + name} | ({"control"} if name.startswith("ctl_") else set()))
+                n += 1
+                corp.add(p)
+        for name, text in gen.C12_STANDALONE:
+            p = gen.Program("w_%s" % name, [("yield", "a")], family="uns", tags={"unsupported:" + name})
+            p.driver = "STANDALONE"
+            p.standalone = text
+            corp.add(p)
+        return {"programs": n + len(gen.C12_STANDALONE), "injected_constructs": [nm for nm, _ in gen.c12_injections()] + [nm for nm, _ in gen.C12_STANDALONE], "host_programs": len(hosts)}
+
+    extra = {
+        "bounds": {"advances_K": K, "outside": "constructs / positions not generated; range over func (needs go >= 1.23 sources); programs the engine cannot execute (select, go) are undecided when accepted"},
+        "explanation": "the real compiler decides first: no output (panic/diagnostic) = rejected, allowed; output that does not type-check = unbuildable, allowed by the statement; otherwise the C01 equivalence query decides whether the generated code behaves like the source (goto/labels/fallthrough/defer are executed natively from the source's SSA). Only 'builds and behaves differently' is a violation.",
+    }
+    return corpus_check(ctx, "c12", build, K, 0, extra, [REF_ASSUMPTION, PROGRAM_DIM], floors={"programs_examined": ctx.q(100, 500)}, batch=2)
+
+
+CLAIMED["C12"] = plan_C12
